@@ -1,7 +1,7 @@
 """C07 (reference part) C09 C10 C11 C12 C13 C14 C18: the real reference server (loader, prefix provider, Start /
 ASCII / PAP handlers, bcrypt, stringy, local accounter) driven by harness `ref`; traces judged by Trace_Ref.tla
 with Handlers.tla (model layer), MayPass (C10), Authz.tla/Regex.tla (C11), Admission.tla (C13)."""
-import json, os, random, re, copy
+import json, os, random, re, copy, ipaddress
 from vf import *
 from refgen import *
 
@@ -233,7 +233,71 @@ def junk_script(rng):
     return [(raw([0, 0, 0, 0, 0]), 0, [])]
 
 
+POOL4 = ["10.0.0.0/8", "10.1.0.0/16", "10.1.2.0/24", "10.1.2.128/25", "10.66.0.0/15", "192.168.0.0/16", "172.16.0.0/12", "10.1.2.3/32", "0.0.0.0/0"]
+POOL6 = ["2001:db8::/32", "2001:db8:1::/48", "2001:db8:1:2::/64", "fd00::/8", "2001:db8:1:2::5/128"]
+
+
+def addr_candidates(rng, prefixes):
+    """boundary and interior addresses of the given prefixes, in 4-octet, 16-octet-mapped and IPv6 forms"""
+    out = []
+    for p in prefixes:
+        n = ipaddress.ip_network(p, strict=False)
+        first, last = int(n.network_address), int(n.broadcast_address)
+        top = (1 << n.max_prefixlen) - 1
+        for v in {first, last, max(0, first - 1), min(top, last + 1), rng.randint(first, last)}:
+            a = ipaddress.ip_address(v) if n.version == 6 else ipaddress.IPv4Address(v)
+            s = str(a)
+            if n.version == 4:
+                out.append(s)
+                out.append("::ffff:" + s)       # the 16-octet form a dual-stack listener reports
+            else:
+                out.append(s)
+    return out
+
+
+def admission_scenario(rng, idx, tag):
+    nsec = rng.randint(1, 3)
+    secrets = []
+    names = ["sa", "sb", "sc"]
+    for k in range(nsec):
+        ps = rng.sample(POOL4, rng.randint(1, 2)) + (rng.sample(POOL6, 1) if rng.random() < 0.5 else [])
+        secrets.append(secret(names[k], "key-%s-%s" % (names[k], tag), ps, nohandler=rng.random() < 0.05))
+    pwx = lambda u, s: "%s-%s-pw-%s" % (u, s, tag)
+    users = []
+    for u in ["u1", "u2", "u3", "u4"]:
+        k = rng.random()
+        if k < 0.3:
+            # one entry per scope, each with its own credential
+            for s in rng.sample(names[:nsec], rng.randint(1, nsec)):
+                users.append(user(u, [s], auth(pwx(u, s)), acct=rng.random() < 0.5))
+        elif k < 0.6:
+            ss = rng.sample(names[:nsec], rng.randint(1, nsec))
+            users.append(user(u, ss, auth(pwx(u, "all"))))
+        elif k < 0.8:
+            users.append(user(u, [rng.choice(names[:nsec])], auth(pwx(u, "one"))))
+        else:
+            users.append(user(u, ["nowhere"], auth(pwx(u, "none"))))
+    rng.shuffle(users)
+    allp = [p["s"] for s in secrets for p in s["prefixes"]]
+    deny = [prefix(p) for p in rng.sample(POOL4 + POOL6, rng.choice([0, 0, 1, 2]))]
+    allow = [prefix(p) for p in rng.sample(POOL4 + POOL6, rng.choice([0, 0, 0, 1, 2]))]
+    cfg = {"secrets": secrets, "users": users, "deny": deny, "allow": allow}
+    cands = addr_candidates(rng, allp + [p["s"] for p in deny + allow])
+    rng.shuffle(cands)
+    conns, steps = [], []
+    for c, a in enumerate(cands[:rng.randint(3, 7)], start=1):
+        conns.append({"c": c, "addr": a})
+        # probe the user set the connection got: PAP logins with the credential of every scope
+        for u in rng.sample(["u1", "u2", "u3", "u4"], 2):
+            pws = sorted({x["auth"]["pw"] for x in users if x["name"] == u and x["auth"]["k"] == "bcrypt"})
+            pw = rng.choice(pws) if pws else "nope-" + tag
+            steps.append(step(c, len(steps) % 4, 1, start(u, pw, atype=2), minor=1, fl=1))
+    return {"id": "c13-%d" % idx, "cfg": cfg, "conns": conns, "steps": steps, "iso": False, "log": False}
+
+
 def scenario(rng, idx, prop, tag):
+    if prop == "C13":
+        return admission_scenario(rng, idx, tag)
     cfg = policy_cfg(rng, tag) if prop in ("C11",) or (prop in ("C07", "C14") and rng.random() < 0.5) else base_cfg(rng, tag)
     scope = "s1" if rng.random() < 0.8 else "s2"
     addr = rng.choice(ADDR[scope])
@@ -305,7 +369,7 @@ def collect(ctx, prop):
     rng = random.Random(ctx.seed * 31337 + int(prop[1:]))
     tag = "%x" % rng.getrandbits(24)
     n = {"C09": (250, 5000), "C10": (900, 20000), "C12": (700, 15000), "C18": (600, 12000), "C07": (800, 15000),
-         "C11": (900, 20000), "C14": (800, 20000)}.get(prop, (600, 10000))[0 if quick else 1]
+         "C11": (900, 20000), "C14": (800, 20000), "C13": (500, 10000)}.get(prop, (600, 10000))[0 if quick else 1]
     scen = [scenario(rng, i, prop, tag) for i in range(n)]
     if prop == "C09":
         scen += exhaustive_c09(rng, tag, 300 if quick else 6000)
@@ -332,6 +396,8 @@ def collect(ctx, prop):
             if not m:
                 continue
             tags = set(re.findall(r'"(C\d+)"', m.group(1)))
+            if prop == "C13" and "C10" in tags:
+                tags.add("C13")       # a PASS the oracle's scope does not allow: users did not stay scoped
             if prop in tags:
                 s = byid.get(m.group(2), {})
                 found.append({"key": "%s:%s" % (prop, classify(prop, s, m.group(4))), "what": "%s violated at event %s of scenario %s" % (prop, m.group(4), m.group(2)),
